@@ -460,7 +460,18 @@ def array_method(I, fr, b, name, args, kwargs, n):
                 return True, r2
             raise Unsupported('reshape to %s' % dims, n)
         if name == 'astype' and args:
+            if set(kwargs) - {'copy'} or len(args) > 1:
+                raise Unsupported('astype(%s)' % ', '.join(sorted(kwargs)), n)
             tag = X._dtype_tag(args[0])
+            if kwargs.get('copy', True) is False and (
+                    tag == getattr(b, 'dtype', None) or (tag == 'float' and getattr(b, 'dtype', None) in (None, 'float'))):
+                return True, b              # nothing to convert: the very array (stores go through)
+            if kwargs.get('copy', True) is False and tag == 'float' and getattr(b, 'dtype', None) == 'caller':
+                r = X.ListV([])
+                r.items = b.items           # the very array when the caller's is float64 already, a copy otherwise
+                r.is_array = True
+                r.dtype = 'float'
+                return True, r
             if tag in ('int', 'narrow', 'caller'):
                 # conversion to an integer type, a narrower float or the element type of a caller's container changes
                 # every value that is not an integer constant: the same hazard as a store into such a buffer
@@ -473,7 +484,11 @@ def array_method(I, fr, b, name, args, kwargs, n):
                 fr.int_store(_array([], tag), list(leaves(b)), n)
             r = _array(b.items, tag)
             return True, r
+        if name == 'ravel' and not args and not kwargs and not any(isinstance(x, ListV) for x in b.items):
+            return True, b                  # a view of a contiguous 1-D array: stores go through
         if name in ('ravel', 'flatten') and not args:
+            if name == 'ravel' and kwargs:
+                raise Unsupported('ravel(%s)' % ', '.join(sorted(kwargs)), n)
             flat = []
 
             def fl2(v):
